@@ -463,7 +463,7 @@ def minimise(prop, plan, cls, budget_s=30, timeout=120, log=None):
 # --------------------------------------------------------------------------------------------
 
 def write_replay(prop, seed, plan, viol, extra=None):
-    d = os.path.join(VERIF, 'replays')
+    d = os.environ.get('ANDES_DST_REPLAY_DIR') or os.path.join(VERIF, 'replays')
     os.makedirs(d, exist_ok=True)
     path = os.path.join(d, '%s-%s-%s.json' % (prop, seed, hashlib.sha256(vclass(viol).encode()).hexdigest()[:8]))
     with open(path, 'w') as f:
@@ -487,7 +487,7 @@ def replay_fresh(prop, path, timeout=300):
 # --------------------------------------------------------------------------------------------
 
 def write_evidence(prop, tier, seed, level, coverage, wall, violations, assumptions):
-    d = os.path.join(VERIF, 'evidence')
+    d = os.environ.get('ANDES_DST_EVIDENCE_DIR') or os.path.join(VERIF, 'evidence')    # sensitivity runs write elsewhere
     os.makedirs(d, exist_ok=True)
     ev = {'property_id': prop, 'tier': tier, 'seed': int(seed), 'level': level, 'coverage': coverage,
           'assumptions': assumptions, 'wall_s': round(wall, 2), 'violations': int(violations)}
